@@ -1549,7 +1549,7 @@ package ice
 //@ // Every package-level variable is on this reviewed list: the four immutable empty sentinels, the
 //@ // two pools (objects are private between Get and Put), the lazily created zstd coders behind
 //@ // sync.Once, and scalars set once by init or never assigned. A new variable must be reviewed.
-//@ globals[C09,C14,C15] decOnce decoder emptyDictionary emptyDictionaryIterator emptyPostingsIterator emptyPostingsList encOnce encoder interimPool newSegmentBufferAvgBytesPerDocFactor newSegmentBufferNumResultsBump newSegmentBufferNumResultsFactor reflectStaticSizeLocation reflectStaticSizeMetaData reflectStaticSizePosting reflectStaticSizePostingsIterator reflectStaticSizePostingsList reflectStaticSizeSegment reflectStaticSizedocValueReader sizeOfPtr sizeOfString sizeOfUint16 sizeOfUint32 sizeOfUint64 termSeparator termSeparatorSplitSlice visitDocumentCtxPool
+//@ globals[C09,C15] decOnce decoder emptyDictionary emptyDictionaryIterator emptyPostingsIterator emptyPostingsList encOnce encoder interimPool newSegmentBufferAvgBytesPerDocFactor newSegmentBufferNumResultsBump newSegmentBufferNumResultsFactor reflectStaticSizeLocation reflectStaticSizeMetaData reflectStaticSizePosting reflectStaticSizePostingsIterator reflectStaticSizePostingsList reflectStaticSizeSegment reflectStaticSizedocValueReader sizeOfPtr sizeOfString sizeOfUint16 sizeOfUint32 sizeOfUint64 termSeparator termSeparatorSplitSlice visitDocumentCtxPool
 //@ // range-over-map loops reachable from the builder, each reviewed for order independence:
 //@ // processDocument: per-field and per-term tables keyed by id, every term has its own postings slot;
 //@ // prepareDictsForDocument: FieldDocs[k]++ per seen field (commutative); writeStoredFields: deletes all keys;
